@@ -1,14 +1,14 @@
 SPECIFICATION MCSpec
 CONSTANTS
   Sponsors = {"s1", "s2"}
-  Txs = {"t1", "t2", "t3", "t4"}
-  SponsorOf <- Sp4
-  SizeOf <- Sz4
+  Txs = {"t1", "t2", "t3"}
+  SponsorOf <- Sp3
+  SizeOf <- Sz3
   Rates = {0, 1, 2}
-  Maxes = {0, 1, 2, 3, 4, 6}
+  Maxes = {0, 2, 3, 4}
   Stamps = {0, 2, 4}
   ExpChoices <- AllExp
-  MaxChunk = 3
+  MaxChunk = 2
   FixedCode = TRUE
 INVARIANTS TypeOK PendingIsSumOfUnsettled ZeroWhenSettled WithinMax RecordMatchesOpen OpenWillBeReleased
 CHECK_DEADLOCK FALSE
